@@ -18,7 +18,7 @@ def candidates(line):
         yield parts[0] + ":" + parts[1] + ": " + " ".join([str(k)] + [t for c in cycles[:k] for t in c]) + " :"
 
 
-def run(prop, tier, jkey, what, known_key, known_text, design):
+def run(prop, tier, jkey, what, known_key, known_text, design, probes=()):
     t0 = time.time()
     sd = vlib.seed()
     harness = vlib.cargo_build("c01")
@@ -94,6 +94,14 @@ def run(prop, tier, jkey, what, known_key, known_text, design):
     assumptions = ["proved core: BOOL and integer kinds, assignment, IF, CASE, FOR, WHILE, REPEAT, EXIT, CONTINUE, RETURN on program variables; REAL, strings, date/time, arrays, structs, FUNCTION/FB calls, frames are outside the model (tie-only or not covered)",
                    "T (Model/StTyping.v) is a strict subset of what the HIR checker accepts; the tie checks T p => the real compiler accepts p",
                    "OutOfFuel of the model stands for non-termination; generated loops are bounded"]
+    # fixed probe programs of further recorded findings: (key, function -> (hit, what, source))
+    for pk, fn in probes:
+        hit, pwhat, src = fn()
+        if pk in listed:
+            known_lines.append("%s (%s)" % (listed[pk][:600], "re-observed on the probe program" if hit else "NOT re-observed: the probe program runs cleanly now"))
+        elif hit:
+            path = vlib.write_replay(prop, {"property": prop, "what": pwhat, "source": src})
+            violations.append((path, pwhat, False))
     return vlib.finish(prop, tier, "proof", cov, assumptions, t0, violations, known_lines)
 
 
